@@ -76,7 +76,8 @@ StringDictionaryPFC::StringDictionaryPFC(IteratorDictString *it,
 
     // Checking the available space in textStrings and
     // realloc if required
-    while ((bytesStrings + (2 * lenCurrent)) > reservedStrings)
+    // (a one-byte string without common prefix needs 3 bytes: VByte, char, NUL)
+    while ((bytesStrings + (2 * lenCurrent) + 2) > reservedStrings)
       reservedStrings = Reallocate(&textStrings, reservedStrings);
 
     if ((elements % bucketsize) == 0) {
